@@ -930,11 +930,19 @@ def planner(
                 log.info("No range scans allowed %s", query_items)
             continue
 
+        if default_limit:
+            limit = default_limit
+        elif query.limit is None:
+            limit = Config.max_limit
+        else:
+            # cap the client's limit like the SQL backend does
+            limit = min(query.limit, Config.max_limit)
+
         plan = QueryPlan(
             query_items,
             best_index,
             matches,
-            default_limit or query.limit,
+            limit,
             query.since,
             query.until,
             {},
